@@ -22,7 +22,7 @@ VERIF_DIR="$(dirname "$FUZZ_DIR")"
 TARGET="${1:-}"
 TIER="${2:-quick}"
 case "$TARGET" in
-  der_decoders) RUNS=60000;  MAXLEN=16384; PROPS="C04" ;;
+  der_decoders) RUNS=70000;  MAXLEN=16384; PROPS="C04" ;;
   xml_parsers)  RUNS=150000; MAXLEN=8192;  PROPS="C09 C11" ;;
   rtr_stream)   RUNS=1200000; MAXLEN=4096;  PROPS="C07" ;;
   *) echo "usage: $0 der_decoders|xml_parsers|rtr_stream quick|thorough" >&2; exit 2 ;;
@@ -115,7 +115,7 @@ WORKC="$FUZZ_DIR/corpus-work/$TARGET-$$"
 rm -rf "$WORKC"; mkdir -p "$WORKC/corpus" "$WORKC/art"
 [ -d "$VERIF_DIR/corpus/$TARGET" ] && cp "$VERIF_DIR/corpus/$TARGET"/* "$WORKC/corpus/" 2>/dev/null
 CLOG="$WORKC/fuzz.log"
-COMMON=(-seed="$SEED" -max_len="$MAXLEN" -timeout=10 -rss_limit_mb=4096 -artifact_prefix="$WORKC/art/" -print_final_stats=1 -use_value_profile=0)
+COMMON=(-seed="$SEED" -max_len="$MAXLEN" -timeout=10 -rss_limit_mb=4096 -artifact_prefix="$WORKC/art/" -print_final_stats=1 -mutate_depth=3)
 t0=$(date +%s)
 if [ "$TIER" = "thorough" ]; then
   (cd "$WORKC" && "$BIN" "${COMMON[@]}" -jobs="${VERIF_FUZZ_JOBS:-16}" -workers="${VERIF_FUZZ_JOBS:-16}" -max_total_time="${VERIF_FUZZ_TIME:-600}" corpus >"$CLOG" 2>&1); crc=$?
